@@ -264,8 +264,8 @@ def run(ctx):
                 "mode) vs spec-derived value and vs gradient of reported frequencies; Grueneisen (mesh/band, "
                 "exponent k, strain pair); degenerate_sets inputs")
     margins = {}
-    group_velocity_part(ctx, margins)
-    degeneracy_part(ctx)
+    gv_events = group_velocity_part(ctx, margins)
+    degeneracy_part(ctx, gv_events)
     gruneisen_part(ctx, margins)
     ctx.extra["margins"] = {k: dict(observed=v, tolerance=TOL.get(k)) for k, v in margins.items()}
 
@@ -297,6 +297,7 @@ def group_velocity_part(ctx, margins):
             by.setdefault(st["cfg"]["id"], {}).setdefault("at", []).append(st)
 
     oracles = {}
+    gv_events = []
     for c in cfgs:
         key = (c["entry"], to_tla(c["mats"]))
         if key not in oracles:
@@ -439,10 +440,94 @@ def group_velocity_part(ctx, margins):
                     ctx.violation("gv:not-gradient:%s-mode" % mode, "group velocity (%s mode) is not the gradient of "
                                   "the reported frequencies" % mode, dict(cfg=c, q=q, rel_err=float(e4), got=gvr[ok],
                                                                          gradient=g2[ok]))
+        cutoff_replay(ctx, c, case, objs, oth[: (1 if ctx.quick else 3)], by, fac, margins, gv_events)
         ctx.traces += len(by[c["id"]]["at"])
         if len(ctx.samples) < 2:
             ctx.sample(dict(kind="derivative", entry=c["entry"], S=c["S"], nac=c["nac"], q=[v / c["pden"] for v in st["x"]],
                             n_shortest_sets=len(case.sv), max_multiplicity=max(len(v) for v in case.sv.values())))
+    return gv_events
+
+
+FREQ_UNIT = 1e-4      # integer unit of the frequencies handed to GVDegeneracy.tla = degenerate_sets' default tolerance
+
+
+def cutoff_replay(ctx, c, case, objs, sts, by, fac, margins, gv_events):
+    """GroupVelocity objects constructed directly (as phono3py does) with explicit cutoff_frequency values:
+    the default, one between the gap of two close non-degenerate modes and their frequencies, one above some
+    modes; analytic and finite-difference mode, with and without symmetry.  The call of degenerate_sets inside
+    is recorded (external wrapper) and judged by TLC; the velocities are compared with the spec-derived ones."""
+    import phonopy.phonon.group_velocity as gvmod
+    from phonopy.phonon.group_velocity import GroupVelocity
+
+    n = case.nc
+    for st in sts:
+        x = st["x"]
+        q = np.array(x, float) / c["pden"]
+        for name in ("plain/full", "wang/full"):
+            if name not in objs:
+                continue
+            ph = objs[name]
+            Dm, dDc = case.expected(x, c["pden"], st, name.startswith("wang"))
+            fr, gvx, ok = gv_from(Dm, dDc, fac, cutoff=0.0)
+            nb = len(fr)
+            gaps = np.diff(fr)
+            # the spec's marks: two non-degenerate modes (gap well above the tolerance) that are close
+            cand = [i for i in range(nb - 1) if ok[i] and ok[i + 1] and gaps[i] < fr[i]]
+            if not cand:
+                continue
+            i0 = min(cand, key=lambda i: gaps[i])
+            cut_between = 0.5 * (gaps[i0] + min(fr[i0], 4 * gaps[i0] + gaps[i0]))     # gap < cutoff < f_i0
+            pos = [k for k in range(nb - 1) if fr[k] > 0 and gaps[k] > 20 * FREQ_UNIT]
+            kmid = pos[len(pos) // 2]
+            cut_above = 0.5 * (fr[kmid] + fr[kmid + 1])                               # zeroes modes 0..kmid
+            for cutoff in (1e-4, cut_between, cut_above):
+                fi = [int(round(v / FREQ_UNIT)) for v in fr]
+                ci = int(round(cutoff / FREQ_UNIT))
+                # projection to integers must not sit on a threshold
+                d = np.diff(fr) / FREQ_UNIT
+                if any(0.2 < v < 5 for v in d) or any(abs(v / FREQ_UNIT - cutoff / FREQ_UNIT) < 5 for v in fr if cutoff > 2e-4):
+                    continue
+                for q_length in (None, 1e-5):
+                    for sym in (None, ph.primitive_symmetry):
+                        calls = []
+                        orig = gvmod.degenerate_sets
+
+                        def rec(freqs, cutoff=1e-4, _o=orig, _c=calls):
+                            out = _o(freqs, cutoff=cutoff)
+                            _c.append((float(cutoff), [[int(v) + 1 for v in s_] for s_ in out]))
+                            return out
+                        gvmod.degenerate_sets = rec
+                        try:
+                            with quiet():
+                                g = GroupVelocity(ph.dynamical_matrix, q_length=q_length, symmetry=sym,
+                                                  frequency_factor_to_THz=fac, cutoff_frequency=cutoff)
+                                g.run([q])
+                            got = np.array(g.group_velocities[0])
+                        except Exception as e:
+                            ctx.violation("gv:cutoff-raises", "GroupVelocity(cutoff_frequency=%g) raised %r" % (cutoff, e),
+                                          dict(cfg=c, q=q, path=name))
+                            continue
+                        finally:
+                            gvmod.degenerate_sets = orig
+                        ctx.count(("gv-cutoff", c["id"], tuple(x), name, round(cutoff, 6), q_length, sym is not None))
+                        live = ok & (fr > cutoff)
+                        dead = fr <= cutoff
+                        sg = max(np.abs(gvx[ok]).max(), 1e-6)
+                        e1 = np.abs(got[live] - gvx[live]).max() / sg if live.any() else 0.0
+                        e0 = np.abs(got[dead]).max() if dead.any() else 0.0
+                        upd(margins, "gv_cutoff", e1)
+                        if not (e1 <= TOL["gv_fd_mode"]) or e0 != 0.0:
+                            ctx.violation("gv:cutoff:%s" % ("fd" if q_length else "analytic"),
+                                          "with cutoff_frequency=%g the velocity of a non-degenerate mode above the "
+                                          "cutoff is not <e|dD/dq|e> factor^2/2f (= gradient of its frequency), or a "
+                                          "mode at/below the cutoff is not zeroed" % cutoff,
+                                          dict(cfg=c, x=x, q=q, path=name, cutoff=cutoff, q_length=q_length,
+                                               symmetry=sym is not None, rel_err=float(e1), below_cutoff_max=float(e0),
+                                               frequencies=fr, close_pair=[i0, i0 + 1], got=got, expected=gvx))
+                        if calls:
+                            passed, sets = calls[0]
+                            gv_events.append(dict(freqs=fi, cutoff=ci, tolPassed=int(round(passed / FREQ_UNIT)), sets=sets,
+                                                  zeroed=[k + 1 for k in range(nb) if not got[k].any()]))
 
 
 def freq_gradient(ph, q, L, h=1e-4):
@@ -474,22 +559,26 @@ CHECK_DEADLOCK FALSE
 INVARIANT InvPartition
 INVARIANT InvClasses
 INVARIANT InvConsecutive
-INVARIANT InvCutoff
+INVARIANT InvZeroed
+INVARIANT InvCutoffDoesNotMerge
 INVARIANT ImplPartition
 INVARIANT ImplClasses
 INVARIANT ImplConsecutive
+INVARIANT ImplCutoffDoesNotMerge
+INVARIANT ImplZeroed
 INVARIANT ConformsSets
+INVARIANT ConformsTolerancePassed
 """
 
 
-def degeneracy_part(ctx):
+def degeneracy_part(ctx, gv_events=()):
     from phonopy.phonon.degeneracy import degenerate_sets
 
     # model: all ascending inputs up to the bound
     mc0 = "---- MODULE MC_GVD ----\nEXTENDS GVDegeneracy\nMCObserved == {}\n====\n"
     r0 = ctx.tlc("MC_GVD", cfg_text=CFG_DEG % ((5, 5) if ctx.quick else (6, 6)), extra_files={"MC_GVD.tla": mc0},
                  requirement=True, workers=4, coverage=not ctx.quick)
-    require_actions_fired(ctx, r0, "GVDegeneracy", ["Outer", "Inner"])
+    require_actions_fired(ctx, r0, "GVDegeneracy", ["Call", "Outer", "Inner", "ZeroBelowCutoff"])
     # implementation: recorded outputs on random ascending integer inputs (and all of length <= 4 over 0..3)
     import itertools
     inputs = set()
@@ -508,8 +597,14 @@ def degeneracy_part(ctx):
             except Exception as e:
                 ctx.violation("gvdeg:raises", "degenerate_sets raised %r" % e, dict(freqs=f, tol=tol))
                 continue
-            obs.append((to_tla([list(f), tol]), to_tla([[int(v) + 1 for v in s] for s in sets])))
+            obs.append((to_tla([list(f), tol, 0]),
+                        to_tla(dict(sets=[[int(v) + 1 for v in s] for s in sets], tolPassed=tol, gv=False, zeroed=set()))))
             ctx.count(("degsets", f, tol))
+    # events of real GroupVelocity objects built with explicit cutoff_frequency values (cutoff_replay)
+    for e in gv_events:
+        obs.append((to_tla([e["freqs"], 1, e["cutoff"]]),
+                    to_tla(dict(sets=e["sets"], tolPassed=e["tolPassed"], gv=True, zeroed=set(e["zeroed"])))))
+    ctx.extra["gv_cutoff_events"] = len(gv_events)
     mc = ("---- MODULE MC_GVD ----\nEXTENDS GVDegeneracy\nMCObserved == {%s}\n====\n"
           % ",\n".join("<<%s, %s>>" % o for o in obs))
     res = ctx.tlc("MC_GVD", cfg_text=CFG_DEG % (5, 5), extra_files={"MC_GVD.tla": mc}, requirement=False,
@@ -518,7 +613,8 @@ def degeneracy_part(ctx):
         wit = None
         for n2, tr in res.violations:
             if n2 == nm and tr:
-                wit = dict(freqs=tr[-1][1].get("freqs"), tol=tr[-1][1].get("tol"), machine=tr[-1][1].get("indices"))
+                wit = dict(freqs=tr[-1][1].get("freqs"), tol=tr[-1][1].get("tol"), cutoff=tr[-1][1].get("cutoff"),
+                           machine=tr[-1][1].get("indices"), recorded=tr[-1][1].get("obsv"))
                 break
         ctx.violation("gvdeg:" + nm, "degenerate_sets: %s fails on recorded outputs" % nm, dict(invariant=nm, witness=wit))
     ctx.traces += len(obs)
